@@ -154,11 +154,14 @@ var _ uuid.UUID
 //@ ensures [value] isnil(err) ==> u == uuidOfBytes(input)
 //@ modifies nothing
 
+// the 16 bytes of b starting at o are the bytes of the id u
+//@ spec idBytesAt(b []byte, o int, u uuid.UUID) bool = b[o] == u[0] && b[o + 1] == u[1] && b[o + 2] == u[2] && b[o + 3] == u[3] && b[o + 4] == u[4] && b[o + 5] == u[5] && b[o + 6] == u[6] && b[o + 7] == u[7] && b[o + 8] == u[8] && b[o + 9] == u[9] && b[o + 10] == u[10] && b[o + 11] == u[11] && b[o + 12] == u[12] && b[o + 13] == u[13] && b[o + 14] == u[14] && b[o + 15] == u[15]
 // UUID.Bytes: a fresh 16-byte slice from which FromBytes recovers the id.
 //@ func (github.com/satori/go.uuid.UUID).Bytes
-//@ props C02 C04 C11 C12 C14 C09 C10 C17 C20
+//@ props C02 C04 C11 C12 C14 C09 C10 C17 C20 C06
 //@ assume
 //@ ensures [roundtrip] len(ret) == 16 && fresh(ret) && uuidOfBytes(ret) == u
+//@ ensures [bytes] idBytesAt(ret, 0, u)
 //@ modifies nothing
 
 // proto.Unmarshal: fills the message it is given; nothing is assumed about the decoded content.
